@@ -40,7 +40,7 @@ ASSUMPTIONS = [
 RULE = ("seeded generator (VERIF_SEED): keys {1,2,n-2,n-3, random, d/X/Y with 1-3 leading zero bytes}; message lengths {0,1,31..33,55,56,63..65,119..129,1000,4096,65535,65536}; "
         "IDs {nil, default, 1, 16, 8191, 8192, 8193 bytes}; nonce streams {random, all-zero, all-ff, k=n-1, short}; for every valid base tuple the rejection catalogue: "
         "bit flips of message/ID/r/s/X/Y, r,s in {0,n,n+r,-r,2^256,...}, r+s=n, other keys, hash variants, DER variants {non-minimal, negative, long-form, indefinite, trailing, "
-        "wrong tags, SET, three integers, empty, truncations, byte changes}. A case is non-trivial unless both message and id are empty; distinct = distinct case text")
+        "wrong tags, SET, three integers, empty, truncations, byte changes}; concurrent leg (op C): 2 / 8 / 32 goroutines released together, each signing 8 / 8 / 4 messages on its own yielding reader, every signature compared with the pair its own stream prescribes and all r required to be pairwise distinct. A case is non-trivial unless both message and id are empty; distinct = distinct case text")
 
 
 def nontrivial(f):
@@ -144,6 +144,8 @@ def predicate(f, io):
         if want and not got:
             return False, "verification rejected a signature GM/T 0003.2 accepts"
         return True, ""
+    if op == "C":
+        return _predicate_concurrent(f, io)
     if op == "D":
         pub = (o.zint(f[2]), o.zint(f[3]))
         e = o.msg_e(pub, _uid(f[4]), o.unhex(f[5]))
@@ -152,4 +154,48 @@ def predicate(f, io):
         if io[0] != "ok":
             return False, "Sm3Digest failed"
         return o.os2ip(o.unhex(io[1])) == e, "Sm3Digest is not SM3(ZA || M) as an integer"
+    return True, ""
+
+
+def _hexlist(s):
+    return [] if s in ("-", "") else [b"" if x == "." else bytes.fromhex(x) for x in s.split(",")]
+
+
+def _predicate_concurrent(f, io):
+    """concurrent leg: every goroutine's signatures are the GM/T 0003.2 pairs for ITS OWN nonce stream (40 bytes per
+    attempt, in order), whatever the interleaving; and signatures made from different nonces never share r"""
+    d, g, m = o.zint(f[2]), int(f[3]), int(f[4])
+    streams, msgs = _hexlist(f[5]), _hexlist(f[6])
+    if io[0] != "ok" or len(io) != 1 + g:
+        return False, "concurrent signing failed"
+    pub = o.ec_mul(d, o.G)
+    seen = {}
+    for j in range(g):
+        if io[1 + j] == "err":
+            return False, "goroutine %d: signing failed although its stream holds admissible nonces" % j
+        sigs, _, used = io[1 + j].partition("/")
+        got = [tuple(o.zint(x) for x in p.split(".")) for p in sigs.split(",")]
+        if len(got) != m:
+            return False, "goroutine %d returned %d signatures instead of %d" % (j, len(got), m)
+        pos = 0
+        for i in range(m):
+            e = o.msg_e(pub, o.DEFAULT_ID, msgs[j * m + i])
+            want = None
+            while want is None and pos + 40 <= len(streams[j]):
+                chunk = streams[j][pos:pos + 40]
+                want = o.sign_with_nonce(d, e, o.nonce_of(chunk))
+                pos += 40
+            if want is None:
+                return False, "goroutine %d: stream exhausted" % j
+            r, s = got[i]
+            other = seen.get(r)
+            if other is not None and other != chunk:
+                return False, ("two signatures made with different nonces share r (goroutine %d, signature %d): "
+                               "the private key is recoverable" % (j, i))
+            seen[r] = chunk
+            if (r, s) != want:
+                return False, ("goroutine %d, signature %d: (r,s) is not the GM/T 0003.2 pair for this goroutine's own "
+                               "nonce stream (concurrent signers influence each other)" % (j, i))
+        if int(used) != pos:
+            return False, "goroutine %d: bytes consumed from its reader differ from 40 per attempt" % j
     return True, ""
